@@ -129,17 +129,32 @@ Published(n) ==
 
 StatusOf(vw) == IF vw.left THEN "left" ELSE IF vw.unreach THEN "unreachable" ELSE "active"
 
-\* C04: caught up => the table mirrors the owner
-CaughtUpMirrorsOf(rt) ==
+\* C04: caught up => the table mirrors the owner.  exc = pairs <<o, n>> with the
+\* signature of known finding F5 (the syncer was told that n left while n was
+\* still pending and discarded it): for those the node stays absent.
+CaughtUpMirrorsExcOf(rt, exc) ==
   \A o \in Node : \A n \in Known(o) \ {o} :
     (/\ Untainted(o, n)
      /\ st[o][n].ver = Own(n).ver
      /\ Published(n).proxy # "" /\ Published(n).admin # "")
-    => /\ n \in DOMAIN rt[o].table
-       /\ rt[o].table[n].proxy = Published(n).proxy
-       /\ rt[o].table[n].admin = Published(n).admin
-       /\ rt[o].table[n].eps = Published(n).eps
-       /\ rt[o].table[n].status = StatusOf(st[o][n])
+    => IF <<o, n>> \in exc
+       THEN st[o][n].left /\ n \notin DOMAIN rt[o].table
+       ELSE /\ n \in DOMAIN rt[o].table
+            /\ rt[o].table[n].proxy = Published(n).proxy
+            /\ rt[o].table[n].admin = Published(n).admin
+            /\ rt[o].table[n].eps = Published(n).eps
+            /\ rt[o].table[n].status = StatusOf(st[o][n])
+CaughtUpMirrorsOf(rt) == CaughtUpMirrorsExcOf(rt, {})
+
+\* F5: the nodes for which o's syncer processes a "leave" while they are pending
+RECURSIVE LeftWhilePending(_, _, _)
+LeftWhilePending(r, o, seq) ==
+  IF seq = <<>> THEN {}
+  ELSE LET ev == Head(seq)
+           mine == ev.o = o
+       IN (IF mine /\ ev.t = "leave" /\ ev.n \in DOMAIN r.pend /\ ev.n \notin DOMAIN r.table
+           THEN {ev.n} ELSE {})
+          \cup LeftWhilePending(IF mine THEN SyncEv(r, ev) ELSE r, o, Tail(seq))
 
 \* the same without excusing views damaged by known finding F4 (used to
 \* demonstrate the harm of F4 on the real code)
